@@ -254,6 +254,7 @@ PLANS['C08'] = dict(
 
 
 PLANS['C17'] = dict(
+    evaluations_from='operations_applied',
     rule='round 0 of each process enumerates every valid operation sequence to depth D over K elements and 2 lists (exhaustive for that bound; D=5,K=4 quick; D=6,K=5 thorough); '
          'later rounds are random 300-operation sequences over 6 elements and 3 lists; after every operation all lists are compared with array models forwards and backwards. '
          'distinct_nontrivial = distinct abstract list configurations reached in which some list has at least two elements.',
@@ -266,6 +267,7 @@ PLANS['C17'] = dict(
 
 
 PLANS['C18'] = dict(
+    evaluations_from='cmp_checked',
     rule='round 0 of each process is the complete boundary grid (25 second values x 8 nanosecond values, squared) for add/sub/cmp/(a+b)-b plus boundary arguments of ms/us/s_ns; '
          'each later round is 200 000 random pairs and 200 000 random scalar arguments; every result is compared with __int128 arithmetic under UBSan. '
          'distinct_nontrivial = distinct (a,b) pairs checked (hash of the 128-bit pair); pairs that overflow the seconds field are skipped and counted.',
